@@ -210,11 +210,29 @@ structure MKey where
   orphan : Option Nat := none
   /-- ... and that block has been disconnected since (finding: the notifier keeps the details) -/
   stale : Bool := false
+  /-- hint value cached while `stale` -/
+  staleHint : Option Nat := none
   deriving Inhabited
 
 /-- clause name: failures on a request in the known "orphan details" situation are attributed to it -/
+def explainedByOrphan : List String :=
+  ["conf_missing", "hint_safe_conf", "reorg_notice", "spend_missing", "hint_safe_spend", "done_early"]
+
+/-- Failures the recorded defect explains for a request whose stale details are still cached by the
+    notifier (i.e. until the request set is deleted).  Everything else keeps its own clause. -/
 def MKey.cl (k : MKey) (clause : String) : String :=
-  if k.stale then s!"orphan_details sub={clause}" else clause
+  if k.stale && explainedByOrphan.contains clause then s!"orphan_details sub={clause}" else clause
+
+/-- the same for a failure about delivered/believed details at height `h`: only if these are the
+    orphaned details themselves -/
+def MKey.clAt (k : MKey) (clause : String) (h : Nat) : String :=
+  if k.stale && k.orphan == some h then s!"orphan_details sub={clause}" else clause
+
+/-- the hint clause: also after the set was deleted, as long as the cache still holds the value
+    written while the stale details were cached -/
+def MKey.clHint (k : MKey) (clause : String) : String :=
+  if k.stale || (k.staleHint.isSome && k.staleHint == k.hint) then s!"orphan_details sub={clause}"
+  else clause
 
 structure Mon where
   on : Bool := false
@@ -301,6 +319,12 @@ structure St where
   cDone : Nat := 0
   cOnce : Nat := 0
   monCases : Nat := 0
+  /-- lazy stream: per client, "the last Confirmed/Spend it read has not been followed by a notice" -/
+  lazyHold : List (Nat × Bool) := []
+  lazyDoubleConf : Nat := 0
+  lazyDoubleSpend : Nat := 0
+  lazyCasesWithDouble : Nat := 0
+  lazyCaseFlag : Bool := false
   blockedOps : Nat := 0
   panicOps : Nat := 0
   invalidCases : Nat := 0
@@ -465,7 +489,8 @@ def monitorOp (s : St) : IO St := do
               | none => false
             if !final && !k.tainted then
               s ← monitor s (k.cl "done_early") s!"{if kc then "conf" else "spend"} key={kk} dropped although it is not beyond the reorg safety limit"
-            m := m.setKey { k with active := false }
+            -- the notifier dropped the set: stale details / untruthful rescan answers are gone
+            m := m.setKey { k with active := false, stale := false, orphan := none, tainted := false }
             for r in m.regs do
               if r.live && r.conf == kc && r.key == kk && !k.tainted then
                 doneExpected := r.reg :: doneExpected
@@ -517,7 +542,7 @@ def monitorOp (s : St) : IO St := do
           if e.bad then
             s ← monitor s (mk.cl "details") s!"r{r.reg} got details for another transaction/outpoint"
           if !detailsOnChain m r.conf r.key c then
-            s ← monitor s (mk.cl (if r.conf then "conf_active_chain" else "spend_active_chain"))
+            s ← monitor s (mk.clAt (if r.conf then "conf_active_chain" else "spend_active_chain") c.1)
               s!"r{r.reg} key={r.key} told {tripleStr c} which is not on the active chain (cur={m.cur})"
           else if r.conf && c.1 + r.n > m.cur + 1 then
             s ← monitor s (mk.cl "conf_depth") s!"r{r.reg} told confirmed at {c.1} with N={r.n} but cur={m.cur}"
@@ -559,7 +584,7 @@ def monitorHints (s : St) : St :=
   { s with mon := s.got.foldl upd m }
 
 /-- clauses evaluated on the state after the operation -/
-def monitorState (s : St) (activeBefore : List (Bool × Nat)) : IO St := do
+def monitorState (s : St) (activeBefore staleBefore : List (Bool × Nat)) : IO St := do
   let mut s := s
   let m := s.mon
   if !m.on then return s
@@ -581,7 +606,7 @@ def monitorState (s : St) (activeBefore : List (Bool × Nat)) : IO St := do
           | some b => if r.conf then b.id == c.2.1 else b.txs.any (fun tx => tx.id == c.2.1 && tx.spends[c.2.2]? == some r.key)
           | none => false
         if !still then
-          s ← monitor s (mk.cl (if r.conf then "conf_retract" else "spend_retract"))
+          s ← monitor s (mk.clAt (if r.conf then "conf_retract" else "spend_retract") c.1)
             s!"r{r.reg} key={r.key} still believes {tripleStr c} which left the active chain without a reorg notice"
       | none => pure ()
       -- completeness
@@ -595,21 +620,28 @@ def monitorState (s : St) (activeBefore : List (Bool × Nat)) : IO St := do
                 s!"r{r.reg} key={r.key} N={r.n}: on the active chain at {ih}/{x}/{i}, cur={m.cur}, but the client was told {(r.status.map tripleStr).getD "nothing"}"
         | none => pure ()
   -- hints
-  for mk in m.keys do
+  for mk0 in m.keys do
+    -- the set may have been dropped in this very operation: the hint written by it still stems
+    -- from the stale period
+    let mk := if staleBefore.contains (mk0.conf, mk0.key) && !mk0.stale
+      then { mk0 with staleHint := mk0.hint } else mk0
     if !mk.tainted then
       match mk.hint, m.inc mk.conf mk.key with
       | some v, some (ih, _, _, _) =>
         if mk.hints.all (· ≤ ih) then
           s := { s with cHint := s.cHint + 1 }
           if v > ih then
-            s ← monitor s (mk.cl (if mk.conf then "hint_safe_conf" else "hint_safe_spend"))
+            s ← monitor s (mk.clHint (if mk.conf then "hint_safe_conf" else "hint_safe_spend"))
               s!"key={mk.key}: cached hint {v} > actual height {ih} on the active chain"
       | _, _ => pure ()
       if isTip && mk.hint != mk.prevHint then
         s := { s with cHintMove := s.cHintMove + 1 }
         if !(activeBefore.contains (mk.conf, mk.key) && mk.rescanDone) then
           s ← monitor s (mk.cl "hint_moved_pending") s!"{if mk.conf then "conf" else "spend"} key={mk.key}: hint moved {optNat mk.prevHint}→{optNat mk.hint} with the tip although the rescan is not complete"
-  s := { s with mon := { s.mon with keys := s.mon.keys.map (fun k => { k with prevHint := k.hint }) } }
+  s := { s with mon := { s.mon with keys := s.mon.keys.map (fun k =>
+    { k with prevHint := k.hint,
+             staleHint := if k.stale || staleBefore.contains (k.conf, k.key) then k.hint
+                          else if k.staleHint == k.hint then k.staleHint else none }) } }
   return s
 
 /-! ### per-operation bookkeeping -/
@@ -628,9 +660,10 @@ def finishOp (s : St) : IO St := do
     s ← mismatch s s!"after [{s.opLine}]: model-only={missing} impl-only={extra}"
   -- (S)
   let activeBefore := s.mon.keys.filter (·.active) |>.map (fun k => (k.conf, k.key))
+  let staleBefore := s.mon.keys.filter (·.stale) |>.map (fun k => (k.conf, k.key))
   s ← monitorOp s
   s := monitorHints s
-  s ← monitorState s activeBefore
+  s ← monitorState s activeBefore staleBefore
   return { s with haveOp := false, expect := [], got := [], evs := [], pop := none }
 
 def step (s : St) (line : String) : IO St := do
@@ -653,6 +686,7 @@ def step (s : St) (line : String) : IO St := do
     let lazy := (kvNat? rest "lazy").getD 0 == 1
     let kind := (kv? rest "kind").getD ""
     let monOn := kind == "valid" || kind == "story"
+    let s := { s with lazyHold := [], lazyCaseFlag := false }
     let s := { s with caseId := id, m := { cur := start, limit := limit }, lazy := lazy, dead := false,
                        last := [], expect := [], got := [], haveOp := false, evs := [],
                        mon := { on := monOn, limit := limit, cur := start, maxTip := start },
@@ -672,7 +706,24 @@ def step (s : St) (line : String) : IO St := do
     return { s with mon := { s.mon with on := false }, invalidCases := s.invalidCases + 1 }
   | "ev" :: _ =>
     match parseEv ws with
-    | some e => return { s with got := line :: s.got, evs := s.evs ++ [e] }
+    | some e =>
+      let mut s := { s with got := line :: s.got, evs := s.evs ++ [e] }
+      if s.lazy then
+        -- what an asynchronous client reads: two Confirmed (Spend) without a notice in between?
+        let hold0 := (s.lazyHold.lookup e.reg).getD false
+        let hold1 := if e.neg then false else hold0
+        let mut hold := hold1
+        for _ in e.conf do
+          if hold then
+            if e.isSpend then s := { s with lazyDoubleSpend := s.lazyDoubleSpend + 1 }
+            else s := { s with lazyDoubleConf := s.lazyDoubleConf + 1 }
+            if !s.lazyCaseFlag then
+              s := { s with lazyCaseFlag := true, lazyCasesWithDouble := s.lazyCasesWithDouble + 1 }
+              if s.lazyCasesWithDouble ≤ 2 then
+                IO.println s!"SAMPLE lazy client r{e.reg} in case {s.caseId} read two {if e.isSpend then "Spend" else "Confirmed"} events without a reorg notice in between (second: [{line}])"
+          hold := true
+        s := { s with lazyHold := (e.reg, hold) :: s.lazyHold.filter (·.1 != e.reg) }
+      return s
     | none => mismatch s s!"unparsed line: {line.take 60}"
   | "stg" :: _ | "stc" :: _ | "sts" :: _ =>
     return { s with got := line :: s.got }
@@ -736,6 +787,8 @@ def main : IO Unit := do
   IO.println s!"STAT chk_hint_moves={s.cHintMove}"
   IO.println s!"STAT chk_rescan_range={s.cRange}"
   IO.println s!"STAT chk_done={s.cDone}"
+  IO.println s!"STAT lazy_clients_read_double_confirmed_without_notice={s.lazyDoubleConf}"
+  IO.println s!"STAT lazy_clients_read_double_spend_without_notice={s.lazyDoubleSpend}"
   IO.println s!"STAT impl_blocked_ops={s.blockedOps}"
   IO.println s!"STAT impl_panic_ops={s.panicOps}"
   IO.println s!"STAT mismatches={s.mismatches}"
